@@ -145,7 +145,12 @@ func (listener *tcpLineListener) runConnection(connLogger logger.Logger, conn *n
 	connLogger.Info("started")
 
 	recvChan := listener.receiver.NewSink(conn.RemoteAddr().String(), clientNumber)
-	defer recvChan.Close()
+	recvChanClosed := false
+	defer func() {
+		if !recvChanClosed {
+			recvChan.Close()
+		}
+	}()
 
 	connAborter := listener.launchConnectionCloser(connLogger, conn)
 
@@ -188,13 +193,20 @@ func (listener *tcpLineListener) runConnection(connLogger logger.Logger, conn *n
 			if !util.IsNetworkClosed(readErr) {
 				connLogger.Warn("read() error: ", readErr)
 			}
+			// flush and close the sink before the socket is released: the client number is the socket FD, which may be
+			// taken by a new connection as soon as this one is closed
+			recvChan.Flush()
+			recvChan.Close()
+			recvChanClosed = true
 			connAborter.Signal()
 			vhook.G("tcp.conn.aborted")
 		}
 		break
 	}
 
-	recvChan.Flush()
+	if !recvChanClosed {
+		recvChan.Flush()
+	}
 	connLogger.Info("ended")
 }
 
